@@ -64,6 +64,10 @@ def _clamp_limit(v):
 
 def run_case(case) -> CaseResult:
     res = CaseResult()
+    if isinstance(case, dict) and case.get('t') == 'file':
+        from checks import c20_file
+        c20_file.run_file_case(case, res)
+        return res
     from aioslsk.events import EventBus
     from aioslsk.network.connection import PeerConnection
     from aioslsk.network.network import Network
@@ -288,6 +292,8 @@ def run_case(case) -> CaseResult:
 def run_shard(ctx):
     n = 900 if ctx.tier == 'quick' else 30000
     ctx.explore(case_strategy(), n)
+    from checks import c20_file
+    c20_file.shard_file(ctx)
 
 
 MANIFEST_ENTRY = {
